@@ -35,7 +35,8 @@ CONSTANTS Shapes,     \* init arguments: [sec |-> "raw", via, wcap, woff, rcap, 
           Parts,      \* element sizes offered to write / read
           Early,      \* numbers of buffered bytes the implementation may write out early (design freedom)
           Ahead,      \* numbers of bytes the implementation may load ahead of a read (design freedom)
-          MaxOps      \* history length bound
+          MaxOps,     \* history length bound, section file
+          RawOps      \* history length bound, section raw
 
 VARIABLES shape, nops, obs,
           \* ---- section raw, Tier 1
@@ -403,7 +404,7 @@ Init ==
   /\ disk = IF shape.sec = "file" THEN shape.pre ELSE <<>>
   /\ obs = [a |-> "init", arg |-> shape, exp |-> [ret |-> "ok"]]
 
-Next == nops < MaxOps /\ Count /\ UNCHANGED shape /\ (UNext \/ FNext)
+Next == nops < (IF IsRaw THEN RawOps ELSE MaxOps) /\ Count /\ UNCHANGED shape /\ (UNext \/ FNext)
 
 Spec == Init /\ [][Next]_vars
 
@@ -419,6 +420,9 @@ RawTiling == [][(IsRaw /\ obs'.a = "recv" /\ obs'.exp.ret = "part")
                  => /\ uwin'.pos = uwin.pos + uwin.len
                     /\ obs'.exp.data = SubSeq(urin, uwin'.pos + 1, uwin'.pos + uwin'.len)
                     /\ uwin'.pos + uwin'.len = Len(urin)]_vars
+\* a peek shows bytes of the current part and what arrived after it, nothing else
+RawPeek == [][(IsRaw /\ obs'.a = "peek" /\ obs'.arg.dst = 1 /\ urin # <<>>)
+               => (IsPrefix(obs'.exp.data, Drop(urin, uwin.pos)) /\ obs'.exp.n = Len(obs'.exp.data))]_vars
 \* a discard removes exactly the unfinished bytes
 RawDiscard == [][(IsRaw /\ obs'.a = "discard") => (uw'.fin = uw.fin /\ usent' = usent /\ uw'.open \in {<<>>, uw.open})]_vars
 
@@ -434,7 +438,7 @@ FlushComplete == (IsFile /\ obs.a \in {"flush", "close"}) => (obs.exp.disk = dis
 \* a line end adds the documented bytes and nothing else
 EndlExact == [][(IsFile /\ obs'.a = "endl" /\ obs'.exp.ret = "ok")
                  => want' = Overlay(want, WPos, NlStr(fs.nl))]_vars
-TypeOK == /\ nops \in 0..MaxOps
+TypeOK == /\ nops \in 0..MaxOf(MaxOps, RawOps)
           /\ IsRaw => (fs = Closed /\ disk = <<>>)
           /\ IsFile => (uw.fin = <<>> /\ urin = <<>>)
 =============================================================================
